@@ -183,3 +183,73 @@ func contains(s, sub string) bool {
 	}
 	return false
 }
+
+var _ = reg("C06_Datetime", C06_Datetime)
+
+// C06_Datetime: the five entry points on the datetime methods: every cast
+// method on strings of all five datetime types (and on text that is none),
+// with and without WithTZ, silent and verbose, lax and strict, in a context
+// zone: Exists/First/ExistsOrMatch tell what Query tells.
+func C06_Datetime() {
+	mode := modePrefix()
+	m := castMethods[nd.Choice(len(castMethods))]
+	src := mode + "$." + m + "()"
+	switch nd.Choice(3) {
+	case 1:
+		src += ".type()"
+	case 2:
+		src = mode + "$[*]." + m + "()"
+	}
+	var val any
+	if k := nd.Choice(6); k < 5 {
+		val = dtString(k, digit())
+	} else {
+		val = "x"
+	}
+	var doc any = val
+	if contains(src, "[*]") {
+		doc = []any{val, dtString(tDate, "1")}
+	}
+	ctx := tzContext()
+	var opts []exec.Option
+	if nd.Choice(2) == 1 {
+		opts = append(opts, exec.WithTZ())
+	}
+	silent := nd.Choice(2) == 1
+	vopts := opts
+	if silent {
+		opts = append(append([]exec.Option{}, opts...), exec.WithSilent())
+	}
+	p := parse(src)
+	tag := "C06/datetime"
+	vq, vqerr := p.Query(ctx, doc, vopts...)
+	q, qerr := p.Query(ctx, doc, opts...)
+	f, ferr := p.First(ctx, doc, opts...)
+	nd.Assert(errClass(ferr) == errClass(qerr), tag+"/First/error-differs-from-Query")
+	if qerr == nil && ferr == nil {
+		nd.Assert((f == nil) == (len(q) == 0), tag+"/First/emptiness-differs-from-Query")
+	}
+	ex, eerr := p.Exists(ctx, doc, opts...)
+	switch {
+	case vqerr == nil:
+		nd.Assert(eerr == nil && ex == (len(vq) > 0), tag+"/Exists/disagrees-with-successful-Query")
+	case hardErr(vqerr):
+		// a complete evaluation fails hard; Exists may have answered before reaching it only if an item precedes
+		if eerr == nil && ex {
+			pq, _ := p.Query(ctx, doc, append(append([]exec.Option{}, vopts...), exec.WithSilent())...)
+			nd.Assert(len(pq) > 0 || !p.IsStrict(), tag+"/Exists/true-though-evaluation-yields-nothing")
+		}
+	default:
+		// a complete evaluation yields an error: Exists must not report true
+		// unless an item was found before it (lax early exit)
+		if eerr == nil && ex {
+			pq, perr := p.Query(ctx, doc, append(append([]exec.Option{}, vopts...), exec.WithSilent())...)
+			nd.Assert(perr == nil && len(pq) > 0 && !p.IsStrict(), tag+"/Exists/true-though-evaluation-yields-nothing")
+		}
+		if p.IsStrict() {
+			nd.Assert(eerr != nil, tag+"/Exists/strict-hides-error")
+		}
+	}
+	eo, eoerr := p.ExistsOrMatch(ctx, doc, opts...)
+	nd.Assert(eo == ex && (eoerr == nil) == (eerr == nil), tag+"/ExistsOrMatch/differs-from-Exists")
+}
